@@ -6,6 +6,7 @@
    built with assume_valid=True, i.e. the identity: [w_schema_errors] (what graphql-core WOULD report)
    is never consulted by the pipeline. *)
 From Coq Require Import List String Ascii ZArith Bool.
+From AC Require Model.Introspect.
 From AC Require Import Base.Sexp Base.Json Base.Strs Model.Names Model.Settings.
 Import ListNotations.
 Local Open Scope string_scope.
@@ -39,7 +40,12 @@ Record opinfo := { op_name : option string;                  (* None: anonymous 
 Record world := {
   w_schema_files : list gfile;         (* files read for schema_path, in the loader's (sorted) order *)
   w_schema_build : build_res;          (* build_ast_schema(parse(joined), assume_valid=True) *)
-  w_remote : option err;               (* introspection outcome when remote_schema_url is used *)
+  (* the remote route (schema_path empty): what httpx makes of the URL, what the server answers, and
+     graphql-core's verdict on the data below build_client_schema's first gate; the decision chain
+     itself is Model/Introspect.v (C19), reused here *)
+  w_url : Introspect.urlclass;
+  w_resp : Introspect.response;
+  w_deep : option string;
   w_schema_errors : list string;       (* reference verdict: validate_sdl + validate_schema messages *)
   w_plugin_err : option string;        (* get_plugins_types raises PluginImportError(msg) *)
   w_query_files : list gfile;
@@ -74,6 +80,26 @@ Definition load_and_parse (fs : list gfile) (log : list effect) : list effect * 
       end
   end.
 
+(* get_graphql_schema_from_url / introspect_remote_schema: every refusal is IntrospectionError *)
+Definition ierr_msg (url : string) (ie : Introspect.ierr) : string :=
+  match ie with
+  | Introspect.EInvalidUrl => "Invalid remote schema url: " ++ url
+  | Introspect.EStatus z => "Failure of remote schema introspection. HTTP status code: " ++ z_to_string z
+  | Introspect.ENotJson => "Introspection result is not a valid json."
+  | Introspect.EFormat => "Invalid introspection result format."
+  | Introspect.EErrors _ => "Introspection errors: "
+  | Introspect.EDataKey => "Invalid data key in introspection result."
+  | Introspect.EBuild => "Invalid or incomplete introspection result: "
+  end.
+
+Definition load_remote (b : bsettings) (w : world) (log : list effect) : list effect * option err :=
+  (* a request leaves the process only when httpx accepts the URL *)
+  let log' := match w_url w with Introspect.UOk => (log ++ [EHttp (s_url b)])%list | _ => log end in
+  match Introspect.schema_from_url (w_url w) (w_resp w) (w_deep w) with
+  | Introspect.SBuilt _ => (log', None)
+  | Introspect.SError ie => (log', Some (mkerr IntrospectionError (ierr_msg (s_url b) ie)))
+  end.
+
 Definition load_schema (b : bsettings) (w : world) (log : list effect) : list effect * option err :=
   if negb (String.eqb (s_schema_path b) "") then
     match load_and_parse (w_schema_files w) log with
@@ -84,7 +110,7 @@ Definition load_schema (b : bsettings) (w : world) (log : list effect) : list ef
         | BuildRaises c m => (log', Some (mkerr (Other c) m))
         end
     end
-  else ((log ++ [EHttp (s_url b)])%list, w_remote w).
+  else load_remote b w log.
 
 Definition load_plugins (w : world) : option err :=
   match w_plugin_err w with Some m => Some (mkerr PluginImportError m) | None => None end.
@@ -294,14 +320,34 @@ Definition dOp (e : sexp) : option opinfo :=
   end.
 Definition dRule (e : sexp) : option (string * string) :=
   match e with L [A r; A m] => Some (r, m) | _ => None end.
+(* (urlclass status body-or-none deep) *)
+Definition dRemote (e : sexp) : option (Introspect.urlclass * Introspect.response * option string) :=
+  match e with
+  | L [A u; st; body; deep] =>
+      let uc := if String.eqb u "ok" then Some Introspect.UOk
+                else if String.eqb u "invalid" then Some Introspect.UInvalid
+                else if String.eqb u "noscheme" then Some Introspect.UNoScheme else None in
+      let b := match body with
+               | A "none" => Some None
+               | L [A "some"; j] => match json_of_sexp j with Some v => Some (Some v) | None => None end
+               | _ => None end in
+      match uc, dZ st, b, dOpt dStr deep with
+      | Some uc', Some z, Some b', Some d' =>
+          Some (uc', {| Introspect.r_status := z; Introspect.r_body := b' |}, d')
+      | _, _, _, _ => None
+      end
+  | _ => None
+  end.
+
 Definition dWorld (e : sexp) : option world :=
   match e with
   | L [sf; sb; rem; se; pe; qf; oe; ops; L [fr; qt; mt]] =>
-      match dList dGfile sf, dBuild sb, dErrO rem, dList dStr se, dOpt dStr pe, dList dGfile qf,
+      match dList dGfile sf, dBuild sb, dRemote rem, dList dStr se, dOpt dStr pe, dList dGfile qf,
             dList dRule oe, dList dOp ops, dAll dB [fr; qt; mt] with
       | Some sf', Some sb', Some rem', Some se', Some pe', Some qf', Some oe', Some ops',
         Some [fr'; qt'; mt'] =>
-          Some {| w_schema_files := sf'; w_schema_build := sb'; w_remote := rem'; w_schema_errors := se';
+          Some {| w_schema_files := sf'; w_schema_build := sb'; w_url := fst (fst rem'); w_resp := snd (fst rem');
+                  w_deep := snd rem'; w_schema_errors := se';
                   w_plugin_err := pe'; w_query_files := qf'; w_op_errors := oe'; w_ops := ops';
                   w_fragments := fr'; w_query_type := qt'; w_mutation_type := mt' |}
       | _, _, _, _, _, _, _, _, _ => None
